@@ -106,4 +106,3 @@ func (d Desc) Spec() *utls.ClientHelloSpec {
 	}
 	return s
 }
-
